@@ -18,7 +18,7 @@ func init() {
 		Explain: "Decides on every path of the mocks package: the mock async producer gives each input message at most one outcome (one send on Successes/Errors per iteration) and the sync producer returns exactly the expectation's result or the partitioner/checker error (C20.one-outcome); expectations are consumed from the head, one per message, len(msgs) for SendMessages (C20.fifo); the partition is the configured partitioner's choice over the configured partition count and is what is stored in / returned for the message (C20.partition); " +
 			"lastOffset is incremented exactly once per success and consumer offsets come from the atomic high-water-mark counter (C20.offsets); every deviation branch reports to the ErrorReporter exactly once and the set of reporting sites is the tabled one (C20.report); expectation state is accessed under the mock's mutex (C20.lock). " +
 			"NOT covered: the behaviour of user-supplied checkers and partitioners, channel capacity effects.",
-		Rules: []func(*Ctx){c20OneOutcome, c20Fifo, c20Partition, c20Offsets, c20Report, c20Lock, c20Atomic, c20OwnConfig},
+		Rules: []func(*Ctx){c20OneOutcome, c20Fifo, c20Partition, c20Offsets, c20Report, c20Lock, c20Atomic, c20OwnConfig, c20ErrLost, c20CloseAll},
 	})
 }
 
@@ -406,5 +406,50 @@ func c20OwnConfig(c *Ctx) {
 	}
 	if n == 0 {
 		c.Unresolved(rule, "stores to TopicConfig.overridePartitions")
+	}
+}
+
+// C20.close-all: closing the mock consumer examines every partition.
+func c20CloseAll(c *Ctx) {
+	rule := "C20.close-all"
+	c.Doc(rule, "mocks.Consumer.Close: the loops over the registered partition consumers are left only when their range is exhausted — no return or break from inside: every partition consumer is closed, so each one's close-time deviations (never started, channels not drained) reach the error reporter whatever the (random) map order and whatever another partition's Close returned")
+	c.Floor(rule, 2)
+	fn := c.NeedFn(rule, "mocks.Consumer.Close")
+	if fn == nil {
+		return
+	}
+	fi := Info(fn)
+	if len(fi.Loops) < 2 {
+		c.Unresolved(rule, fmt.Sprintf("loops of mocks.Consumer.Close (found %d)", len(fi.Loops)))
+	}
+	for i, l := range fi.Loops {
+		var bad *ssa.BasicBlock
+		for b := range l.Blocks {
+			if b == l.Head {
+				continue
+			}
+			if _, isRet := lastInstr(b).(*ssa.Return); isRet {
+				bad = b
+			}
+			for _, succ := range b.Succs {
+				if !l.Blocks[succ] {
+					// leaving from the body; an inner loop's normal exit lands in the outer loop, which is fine
+					inOuter := false
+					for _, l2 := range fi.Loops {
+						if l2 != l && l2.Blocks[succ] && l2.Blocks[b] {
+							inOuter = true
+						}
+					}
+					if !inOuter {
+						bad = b
+					}
+				}
+			}
+		}
+		var at ssa.Instruction
+		if bad != nil {
+			at = lastInstr(bad)
+		}
+		c.Check(bad == nil, rule, fn, fmt.Sprintf("loop#%d-runs-to-the-end", i), at, "every partition consumer is closed", "mocks.Consumer.Close can stop at the first partition whose Close returns something (left-over errors are legitimate): the partitions after it in map order are never closed nor examined — their deviations (consumer never started, channels not drained) are not reported", nil)
 	}
 }
